@@ -48,9 +48,10 @@ def r11_1(ctx: Ctx):
     ctx.floor(rid, 'functions on the search path', len(funcs), 40)
     sites = E.nondet_sites(ctx, funcs)
     sd = roles.solve_driver
+    sd_helpers = set(roles.helpers_of(sd))
     clock = []
     for f, node, d in sites:
-        if d.startswith('datetime.') and f is sd:
+        if d.startswith('datetime.') and (f is sd or f in sd_helpers):
             clock.append((f, node, d))
             continue
         ctx.fail(rid, f.short, f.loc(node), f'{d} is used on the search path: the trial sequence is not a function of '
@@ -81,6 +82,8 @@ def r11_1(ctx: Ctx):
                               f'a wall-clock value is stored into {e.d["tdesc"]}: it can influence the search',
                               key=f'{rid}::{sd.short}::clock-store::{e.d["field"]}')
             elif e.kind == 'call':
+                if e.d.get('inlined'):
+                    continue          # looked through: what the callee does with the value is examined on its events
                 vals = list(e.d['args']) + list(e.d['kwargs'].values())
                 if any(is_t(v) for v in vals) or is_t(e.d.get('recv')):
                     if e.d.get('ext') and e.d['name'] in ('total_seconds', 'print', 'format', 'str'):
